@@ -78,8 +78,7 @@ def merged_only(val, den):
 def run(tier, seed):
     v = lib.Verdict(PID, tier, seed, "exploration")
     thorough = tier == "thorough"
-    E.self_check(PID, "D2" if thorough else "D1")
-    vp, recs, unenc = E.gen_vectors(PID, "D2", alts=True, heavy=thorough)
+    _, vp, recs, unenc = E.check_and_gen(PID, "D2" if thorough else "D1", "D2", True, thorough)
     recs_only = os.path.join(lib.outdir(PID), "vectors_only.ndjson")
     lib.write_ndjson(recs_only, recs)
     obs = E.run_obs(PID, recs_only, {"borrowed": False, "seed": seed})
